@@ -1,6 +1,7 @@
 """
 Some simple comparison expression normalization functions.
 """
+import re
 import socket
 
 from stix2.equivalence.pattern.compare.comparison import (
@@ -11,6 +12,11 @@ from stix2.equivalence.pattern.compare.comparison import (
 _ANY_IDX = object()
 _ANY_KEY = object()
 _ANY = object()
+
+# inet_aton() and int() accept more than well-formed values (trailing junk,
+# fewer than four parts, hex; signs, spaces, underscores, non-ASCII digits)
+_IPV4_RE = re.compile(r"[0-9]+(\.[0-9]+){3}", re.ASCII)
+_PREFIX_SIZE_RE = re.compile(r"[0-9]+", re.ASCII)
 
 
 def _path_is(object_path, path_pattern):
@@ -139,6 +145,10 @@ def ipv4_addr(comp_expr):
         else:
             ip_str = value
 
+        if not _IPV4_RE.fullmatch(ip_str):
+            # illegal IPv4 address string
+            return
+
         try:
             ip_bytes = socket.inet_aton(ip_str)
         except OSError:
@@ -146,11 +156,12 @@ def ipv4_addr(comp_expr):
             return
 
         if is_cidr:
-            try:
-                prefix_size = int(value[slash_idx+1:])
-            except ValueError:
+            prefix_str = value[slash_idx+1:]
+            if not _PREFIX_SIZE_RE.fullmatch(prefix_str):
                 # illegal prefix size
                 return
+
+            prefix_size = int(prefix_str)
 
             if prefix_size < 0 or prefix_size > 32:
                 # illegal prefix size
@@ -208,11 +219,12 @@ def ipv6_addr(comp_expr):
             return
 
         if is_cidr:
-            try:
-                prefix_size = int(value[slash_idx+1:])
-            except ValueError:
+            prefix_str = value[slash_idx+1:]
+            if not _PREFIX_SIZE_RE.fullmatch(prefix_str):
                 # illegal prefix size
                 return
+
+            prefix_size = int(prefix_str)
 
             if prefix_size < 0 or prefix_size > 128:
                 # illegal prefix size
